@@ -212,7 +212,8 @@ func (tt *Txs) ReadFrom(r io.Reader) (int64, error) {
 		return bytesRead, err
 	}
 
-	*tt = make([]*Tx, txCount)
+	// The list grows with the transactions actually read: the count is untrusted.
+	*tt = make([]*Tx, 0)
 
 	for i := uint64(0); i < uint64(txCount); i++ {
 		tx := new(Tx)
@@ -222,7 +223,7 @@ func (tt *Txs) ReadFrom(r io.Reader) (int64, error) {
 			return bytesRead, err
 		}
 
-		(*tt)[i] = tx
+		*tt = append(*tt, tx)
 	}
 
 	return bytesRead, nil
